@@ -493,6 +493,7 @@ pub fn run_replay(file: &str) -> i32 {
         replay: Some(case),
     };
     let res = checks::run_job(&mut ctx);
+    crate::exec::restore_stdout();
     let _ = std::env::set_current_dir("/");
     let _ = std::fs::remove_dir_all(&root);
     if res.violations.is_empty() {
